@@ -97,6 +97,10 @@ func (m *mon) substPG(j job) (o outcome) {
 	calls := enc.take()
 	// (4a)
 	d := pgDiff(t0, tmod, true, hmac.GetDefaultHashSize())
+	if d.DoubleWrap > 0 {
+		o.violate("rewrite(4a) search rewrite wrapped an operand that already is a substr()/substring() call: dialect=postgresql", det(map[string]interface{}{"differences": d.Other, "kind": kind}))
+		return
+	}
 	if len(d.Other) > 0 {
 		o.violate(fmt.Sprintf("rewrite(4a) something other than the substituted values changed: dialect=postgresql kind=%s at=%s", kind, pgFrag(d.Other)), det(map[string]interface{}{"differences": d.Other}))
 		return
@@ -213,6 +217,22 @@ func pgHazards(t *pg_query.ParseResult) string {
 		if depth > 200 {
 			return
 		}
+		switch m.Descriptor().FullName() {
+		case "pg_query.A_Expr":
+			e := m.Interface().(*pg_query.A_Expr)
+			if (e.Kind == pg_query.A_Expr_Kind_AEXPR_LIKE || e.Kind == pg_query.A_Expr_Kind_AEXPR_ILIKE) && len(e.Name) == 1 {
+				switch e.Name[0].GetString_().GetSval() {
+				case "~~", "!~~", "~~*", "!~~*":
+				default:
+					found["like-expression-carrying-a-comparison-operator-name"] = true
+				}
+			}
+		case "pg_query.NullTest":
+			nt := m.Interface().(*pg_query.NullTest)
+			if be := nt.GetArg().GetBoolExpr(); be != nil && be.Boolop == pg_query.BoolExprType_NOT_EXPR {
+				found["null-test-over-not-expression"] = true
+			}
+		}
 		if m.Descriptor().FullName() == "pg_query.A_Const" {
 			c := m.Interface().(*pg_query.A_Const)
 			if f := c.GetFval(); f != nil {
@@ -298,7 +318,7 @@ func (m *mon) phaseSubstPG() {
 		m.r.Violation("non-vacuity:encryptor-config", map[string]interface{}{"error": err.Error()})
 		return
 	}
-	total := m.r.Pick(4000, 100000)
+	total := m.r.Pick(4000, 80000)
 	g := sqlgen.New(m.r.Seed, "c13-pgsubst", sqlgen.PostgreSQL, sqlgen.Options{Strict: true, Schema: schemaTables, Kinds: []string{"insert", "insert", "update", "update", "select", "select", "select", "delete"}})
 	gt := sqlgen.New(m.r.Seed, "c13-pgsubst-tpl", sqlgen.PostgreSQL, sqlgen.Options{Strict: true, Schema: schemaTables, Placeholders: "none"})
 	const chunk = 20000
